@@ -288,6 +288,26 @@ class SimFS:
         self.open_files.add(p)
         return p
 
+    # os-level calls an implementation may add (temp file + rename, remove a stale file, create directories): each is an
+    # event that can fail; the shipped code makes none of them, so they cost nothing on the unchanged tree
+    OS_CALLS = ("replace", "rename", "remove", "unlink", "makedirs", "mkdir", "rmdir", "truncate", "link", "symlink")
+
+    def _wrap_os(self, name, real):
+        def wrapper(*a, **kw):
+            rel = None
+            for x in a[:2]:
+                if isinstance(x, (str, bytes, os.PathLike)):
+                    rel = self.rel(x)
+                    if rel is not None:
+                        break
+            if rel is None or not self.active:
+                return real(*a, **kw)
+            f = self.event("os." + name, rel)
+            if f is not None:
+                raise _oserr(f.get("errno", "EACCES"), f"os.{name} {rel}")
+            return real(*a, **kw)
+        return wrapper
+
     def _mmap(self, fileno, length, *a, **kw):
         f = self.event("mmap", "<fd>", n=length)
         if f is not None:
@@ -303,6 +323,9 @@ class SimFS:
         }
         builtins.open = self._open
         sys.stderr = self.stream
+        self._saved["os"] = {n: getattr(os, n) for n in self.OS_CALLS}
+        for n, real in self._saved["os"].items():
+            setattr(os, n, self._wrap_os(n, real))
         core.mmap = types.SimpleNamespace(mmap=self._mmap, ACCESS_READ=_mmap.ACCESS_READ)
         try:
             import tqdm.std as tstd
@@ -329,6 +352,8 @@ class SimFS:
 
         builtins.open = self._saved["open"]
         sys.stderr = self._saved["stderr"]
+        for n, real in self._saved.get("os", {}).items():
+            setattr(os, n, real)
         core.mmap = self._saved["core_mmap"]
         if "tqdm_time" in self._saved:
             import tqdm.std as tstd
